@@ -52,7 +52,6 @@ type Engine struct {
 	mu      sync.Mutex
 	partMap map[string]*list.Element // 分区 LRU
 	lru     *list.List
-	seq     int64 // 全局单调到达序号（SKIP 起点跟踪用）
 
 	log     logger.Logger // 求值诊断日志器（per-engine，消除包级竞争）
 	errOnce sync.Map      // key: where+"\x00"+src，每表达式仅记一次求值失败（per-engine 有界）
@@ -64,6 +63,7 @@ type partition struct {
 	pending   map[int64][]*run // 贪婪：已完成 run 按 startSeq 暂存，等延伸终止选最长 emit
 	matchNo   int              // 本分区已输出匹配数（MATCH_NUMBER）
 	nextStart int64            // 下一个允许起匹配的 seq（SKIP 策略）
+	seq       int64            // arrival number of the partition's latest row (1, 2, 3, ... per partition)
 }
 
 // frame 是匹配历史的不可变节点（cons-list）：advance 仅 O(1) 追加，前缀天然共享，
@@ -340,11 +340,14 @@ func (e *Engine) Process(row map[string]any, partitionKey string) []map[string]a
 
 	e.mu.Lock()
 	defer e.mu.Unlock()
-	e.seq++
-	mrSeq := e.seq
 
+	// Rows are numbered per partition: skipTo/seqOfLabel locate the rows of a
+	// match as startSeq+i, which only holds when the partition's own rows carry
+	// consecutive numbers (a counter shared by all partitions leaves gaps as soon
+	// as partitions interleave, and AFTER MATCH SKIP then resumes too early).
 	p := e.getPartition(partitionKey)
-	emitted := e.step(p, row, ts, mrSeq)
+	p.seq++
+	emitted := e.step(p, row, ts, p.seq)
 	e.evictIfNeeded()
 	return emitted
 }
